@@ -61,6 +61,16 @@ package highlight
 //@ func SimpleHighlighter.BestFragments
 //@   at call Fragment: assert forall i int :: 0 <= i && i < len(termLocationsSameArrayPosition) ==> (termLocationsSameArrayPosition[i] != nil &&
 //@      0 <= termLocationsSameArrayPosition[i].Start && termLocationsSameArrayPosition[i].Start <= termLocationsSameArrayPosition[i].End && termLocationsSameArrayPosition[i].End <= len(orig))
+// the fragments chosen for formatting number at most what was asked for and their (non-empty) byte ranges are pairwise disjoint
+//@   at call MergeOverlapping: assert [at-most-what-was-asked-for] (len(bestFragments) == 0 || len(bestFragments) <= num)
+//@   at call MergeOverlapping: assert [chosen-fragments-do-not-overlap] forall i int, j int :: (0 <= i && i < j && j < len(bestFragments)) ==> !(bestFragments[i].Start < bestFragments[i].End && bestFragments[j].Start < bestFragments[j].End && bestFragments[i].Start < bestFragments[j].End && bestFragments[j].Start < bestFragments[i].End)
+//@   loop 2
+//@     invariant [at-most-what-was-asked-for] (len(bestFragments) == 0 || len(bestFragments) <= num)
+//@     invariant [chosen-fragments-do-not-overlap] forall i int, j int :: (0 <= i && i < j && j < len(bestFragments)) ==> !(bestFragments[i].Start < bestFragments[i].End && bestFragments[j].Start < bestFragments[j].End && bestFragments[i].Start < bestFragments[j].End && bestFragments[j].Start < bestFragments[i].End)
+//@   loop 3
+//@     invariant [at-most-what-was-asked-for] len(bestFragments) > 0 && len(bestFragments) < num
+//@     invariant [chosen-fragments-do-not-overlap] forall i int, j int :: (0 <= i && i < j && j < len(bestFragments)) ==> !(bestFragments[i].Start < bestFragments[i].End && bestFragments[j].Start < bestFragments[j].End && bestFragments[i].Start < bestFragments[j].End && bestFragments[j].Start < bestFragments[i].End)
+//@     invariant [candidate-clear-of-those-passed] forall k int :: (0 <= k && k <= rangeindex && k < len(bestFragments)) ==> !(ptr(Fragment, iref(candidate)).Start < ptr(Fragment, iref(candidate)).End && bestFragments[k].Start < bestFragments[k].End && ptr(Fragment, iref(candidate)).Start < bestFragments[k].End && bestFragments[k].Start < ptr(Fragment, iref(candidate)).End)
 
 // two fragments overlap exactly when their byte ranges [Start, End) intersect (for non-empty ranges)
 //@ func Fragment.Overlaps(other) (r)
